@@ -77,7 +77,11 @@ func (st *state) nextStep(all []pos) []*step {
 		if dst == nil {
 			return nil
 		}
-		return one(st.mkCopyTo(src, dst))
+		cp := st.mkCopyTo(src, dst)
+		if st.rng.Intn(3) == 0 {
+			st.afterCopyOverwrites(src, dst)
+		}
+		return one(cp)
 	case r < 38: // move-to / move-and-append-to
 		if st.rng.Intn(2) == 0 {
 			src := st.pickByType(filter(all, func(p *pos) bool { return p.ti.Has("MoveAndAppendTo") && thin(p) }))
